@@ -8,4 +8,4 @@ for p in "$@"; do
   done
 done
 # the runs above regenerated lean/PyndlModel/Generated.lean from the changed tree: restore it from /repo
-/venv/bin/python -c "import sys; sys.path.insert(0,'$(dirname $0)/../harness'); import extract_constants as e; e.regenerate()" > /dev/null
+flock /var/tmp/pyndl-verif/lean.lock /venv/bin/python -c "import sys; sys.path.insert(0,'/verif/harness'); import extract_constants as e; e.regenerate()" > /dev/null
